@@ -660,6 +660,7 @@ func numCallOn(name string) func(ast.Expr) bool {
 var arithWant = map[string]string{"+": "+", "-": "-", "*": "*", "/": "/", "^": "Pow", "%": "Mod"}
 
 func ruleArith(c *Ctx) {
+	numPoolLiteralOnly(c)
 	vm := buildVMModel(c)
 	info := vm.pkg.TypesInfo
 	texts := tokenTexts(c)
